@@ -26,7 +26,7 @@ def jt808_side(ctx, mode):
                           "after %s: %d more descriptors and %d more goroutines than before" % (e["after"], e["fds"], e["goroutines"]), {"kind": "live-c10", "mode": mode, "event": e})
         if e["ev"] == "cmd_stranded":
             ctx.violation("caller-stranded handlers=%s" % mode, "a SendActiveMessage to the non-reading terminal did not return", {"kind": "live-c10", "mode": mode})
-    if rc == 0 and not any(e["ev"] == "canary" and e["after"] == "end" for e in events):
+    if rc == 0 and not any(e["ev"] == "canary" and e["after"] == "end" for e in events) and all(e["ok"] for e in events if e["ev"] == "canary"):
         raise vlib.ToolFailure("live-c10 %s ended without its final canary" % mode)
     ctx.note_impl("hostile-clients-against-live-jt808-server handlers=%s" % mode, nh)
     # the canary's own conversation must be exactly what the specification prescribes, whatever the neighbours do
